@@ -382,6 +382,14 @@ def discharge(site, fx, policy):
                             return "D-counter: 64-bit local counter incremented by 1 per loop iteration (cannot reach 2^64 iterations)"
                         if l.get("ty") == "u32" and policy.get("a_size"):
                             return "D-counter-u32: 32-bit counter incremented once per parsed record (assumption A-size: input < 4 GiB)"
+                # running total of per-record counters: `total += x.count` in a loop where `count` is only ever `+= 1`-incremented
+                rr = F.strip(r)
+                if rr.get("k") == "Field" and in_loop(site.parents) and F.strip(l).get("k") in ("Var", "Upvar") \
+                        and field_is_unit_counter(fx, rr["name"]):
+                    if l.get("ty") in ("usize", "u64"):
+                        return "D-counter: 64-bit running total of per-record counters"
+                    if l.get("ty") == "u32" and policy.get("a_size"):
+                        return "D-counter-u32: running total of per-record counters (assumption A-size: input < 4 GiB => < 2^32 records)"
                 return None
             # `x = x + 1` inside a loop is the counter idiom too
             par = site.parents[-1] if site.parents else None
@@ -522,6 +530,34 @@ def discharge(site, fx, policy):
                 return "D-counter: 64-bit sum of in-memory counts"
             return None
     return None
+
+
+_unit_counter_cache = {}
+
+
+def field_is_unit_counter(fx, name):
+    """every write to a field of this name anywhere in the crate is `+= 1` / `= x + 1` (struct literals may initialise it with 0)"""
+    key = (id(fx), name)
+    if key in _unit_counter_cache:
+        return _unit_counter_cache[key]
+    n_inc = 0
+    okc = True
+    for p, b in fx.bodies.items():
+        if b["krate"] != "proguard" or (b.get("impl_trait") or "").endswith("Clone"):
+            continue        # (a clone of a counter is a counter)
+        for n in F.walk(b["body"]):
+            k = n.get("k")
+            if k in ("Assign", "AssignOp") and F.strip(n["l"]).get("k") == "Field" and F.strip(n["l"])["name"] == name:
+                if k == "AssignOp" and n["op"].startswith("Add") and int_lit(n["r"]) == 1:
+                    n_inc += 1
+                else:
+                    okc = False
+            if k == "Adt":
+                for f_ in n["fields"]:
+                    if f_["name"] == name and int_lit(f_["e"]) != 0:
+                        okc = False
+    _unit_counter_cache[key] = okc and n_inc >= 1
+    return _unit_counter_cache[key]
 
 
 def in_loop(parents):
